@@ -68,20 +68,20 @@ deriving Inhabited
 
 def enqueue (a : AS) (tid : Nat) : AS := if a.ready.contains tid then a else { a with ready := a.ready ++ [tid] }
 
-def logCall (w : String) : M Unit := modify fun s => { s with log := w :: s.log }
+def logCall (w : String) (g : GEv) : M Unit := modify fun s => { s with log := w :: s.log, glog := g :: s.glog }
 
 /-- the provider side of `get_dependencies` up to its suspension point -/
 def startDeps (sv : Nat) : M Unit := do
   pollCancel
-  logCall s!"d{sv}"
+  logCall s!"d{sv}" (.call false sv)
   requestStarted
 
 def finishDeps (sv : Nat) : M Unit :=
-  modify fun s => { s with fetchedDeps := sv :: s.fetchedDeps, log := s!"D{sv}" :: s.log }
+  modify fun s => { s with fetchedDeps := sv :: s.fetchedDeps, log := s!"D{sv}" :: s.log, glog := .got false sv :: s.glog }
 
 def finishCands (U : Universe) (n : Nat) : M Unit := do
   let p := (U.pkg? n).getD { cands := [] }
-  modify fun s => { s with fetchedCands := n :: s.fetchedCands, hinted := s.hinted ++ hintedBy p, log := s!"C{n}" :: s.log }
+  modify fun s => { s with fetchedCands := n :: s.fetchedCands, hinted := s.hinted ++ hintedBy p, log := s!"C{n}" :: s.log, glog := .got true n :: s.glog }
 
 /-- one poll of a `get_or_cache_candidates(n)` await of task `tid`; returns the new wait state -/
 def pollCands (U : Universe) (tid n : Nat) (w : CandWait) (a : AS) : M (CandWait × AS) := do
@@ -95,7 +95,7 @@ def pollCands (U : Universe) (tid n : Nat) (w : CandWait) (a : AS) : M (CandWait
       if (a.inflight.lookup n).isSome then
         pure (.listener, { a with listeners := a.listeners ++ [(n, tid)] })
       else do
-        logCall s!"c{n}"
+        logCall s!"c{n}" (.call true n)
         modify fun s => { s with issuedCands := n :: s.issuedCands }
         requestStarted
         pure (.owner, { a with inflight := (n, tid) :: a.inflight, gates := a.gates ++ [(s!"c{n}", tid)] })
